@@ -57,6 +57,9 @@ func methodsOf(e *Env, rule, q string) []*ssa.Function {
 	var out []*ssa.Function
 	for i := 0; i < n.NumMethods(); i++ {
 		if f := e.P.SSA.FuncValue(n.Method(i)); f != nil && len(f.Blocks) > 0 {
+			if core.IsAbsorbed(f) {
+				continue // an unexported helper of the operations (e.g. a caller-holds-lock body): analysed as part of each caller
+			}
 			out = append(out, f)
 		}
 	}
@@ -156,7 +159,24 @@ func checkLockPairing(e *Env, rule string, f *ssa.Function, filter func(path str
 			return ok && o == want && p == path
 		}
 		q := &core.PathQuery{Fn: f, From: site.(ssa.Instruction), Stop: isUnlock, Target: core.IsReturn,
-			DeferStop: func(d *ssa.Defer) bool { o, p, ok := core.MutexOp(d); return ok && o == want && p == path }}
+			DeferStop: func(d *ssa.Defer) bool {
+				if o, p, ok := core.MutexOp(d); ok {
+					return o == want && p == path
+				}
+				// a deferred release function (closure, possibly handed back by a lock helper) whose body unlocks this mutex
+				if body := core.StaticFn(d); body != nil && body.Parent() != nil {
+					found := false
+					core.Instrs(body, func(in ssa.Instruction) {
+						if c, isC := in.(*ssa.Call); isC {
+							if o, p, ok := core.MutexOp(c); ok && o == want && p == path {
+								found = true
+							}
+						}
+					})
+					return found
+				}
+				return false
+			}}
 		construct := fmt.Sprintf("%s:%s(%s)", name, op, path)
 		if w := q.Find(); w != nil {
 			e.R.Fail(rule, construct, e.pos(site.(ssa.Instruction)), "a path reaches a return with the lock still held: "+e.trace(w))
@@ -344,6 +364,9 @@ func checkAtomicSection(e *Env, f *ssa.Function) {
 	}
 	// calls to other operations of the same map are critical sections of their own
 	delegated := core.Calls(f, func(n string, c ssa.CallInstruction) bool {
+		if core.AbsorbedCallee(c.(ssa.Instruction)) != nil {
+			return false // an unexported helper analysed as part of this operation (lock helper, caller-holds-lock body): not an operation of its own
+		}
 		return strings.HasPrefix(n, "pkg/sync.Map.") && len(f.Params) > 0 && core.AccessPath(core.Arg(c, 0)) == core.AccessPath(f.Params[0])
 	})
 	if len(delegated) > 0 && name != "pkg/sync.Map.Range" {
